@@ -36,6 +36,8 @@ pub struct World {
     pub pend: Vec<(usize, PendK, bool)>,
     /// messages approved for ITS: (chain, id, src, payload)
     pub approved: Vec<(Vec<u8>, Vec<u8>, Vec<u8>, Vec<u8>)>,
+    /// the batch and proof each of them was relayed with (same index): relayers may send a batch again
+    pub relayed: Vec<(Vec<u8>, Vec<u8>)>,
     pub hub_set: bool,
     pub eth_set: bool,
     /// every token id a registration / deployment was attempted for (manager possibly without a token yet)
@@ -107,8 +109,9 @@ impl World {
         let set = self.gw.sets.last().unwrap().clone();
         let slots = vec![Slot::Valid; set.keys.len()];
         let proof = self.gw.proof(rng, sink, &set, 0, &raw, &slots);
-        self.gw.tx(sink, &user(0), "approveMessages", &[raw, proof]);
+        self.gw.tx(sink, &user(0), "approveMessages", &[raw.clone(), proof.clone()]);
         self.approved.push((chain.to_vec(), id.clone(), src.to_vec(), payload.to_vec()));
+        self.relayed.push((raw, proof));
         id
     }
     pub fn execute(&mut self, sink: &mut Sink, caller: &[u8], chain: &[u8], id: &[u8], src: &[u8], payload: &[u8], egld: u128) -> String {
@@ -222,6 +225,7 @@ pub fn setup(rng: &mut Rng, sink: &mut Sink) -> World {
         tokens: vec![],
         pend: vec![],
         approved: vec![],
+        relayed: vec![],
         hub_set,
         eth_set,
         ids: vec![],
@@ -402,6 +406,18 @@ fn inbound_other_types(rng: &mut Rng, sink: &mut Sink, w: &mut World, caller: &[
 }
 
 fn step(rng: &mut Rng, sink: &mut Sink, w: &mut World, focus: &str) {
+    if ["C04", "C08", "C18"].contains(&focus) && !w.approved.is_empty() && rng.chance(1, 25) {
+        // a relayer sends an old batch (same bytes, same proof) once more, then somebody executes that message again:
+        // whatever became of the message meanwhile (executed, in flight, still approved) stays as it is
+        let i = rng.below(w.approved.len() as u64) as usize;
+        let (chain, id, src, payload) = w.approved[i].clone();
+        let (raw, proof) = w.relayed[i].clone();
+        w.gw.tx(sink, &user(3), "approveMessages", &[raw, proof]);
+        sink.exec(&format!("query {} isMessageExecuted {}", hex::encode(&w.gw.addr), args(&[chain.clone(), id.clone()])));
+        let c = user(rng.below(6) as u8);
+        w.execute(sink, &c, &chain, &id, &src, &payload, 0);
+        return;
+    }
     if focus == "C13" && rng.chance(1, 10) {
         let c = user(rng.below(6) as u8);
         inbound_other_types(rng, sink, w, &c);
